@@ -6,7 +6,11 @@
 #ifndef OS_MAXOBJ
 #define OS_MAXOBJ 256
 #endif
-#define OS_SHIFT 16
+/* address space of the managed code mappings: OS_NGEN disjoint slots of
+ * OS_SHIFT bytes in one arena object; every anonymous executable mmap and every
+ * moving mremap takes the next slot, so that a stale address is never a valid
+ * address of the live mapping */
+#define OS_SHIFT 256
 #define OS_NGEN 8
 unsigned os_fail_at[OS_NKIND], os_calls[OS_NKIND];
 int os_failed_any, os_last_prot;
@@ -19,10 +23,18 @@ unsigned os_map_end;
 int os_unmapped_ok;
 unsigned char os_written[64];
 unsigned os_written_n;
-int os_fopen_live, os_fclose_ok;
+int os_fopen_live, os_fclose_ok, os_stream_err;
 unsigned os_anon_len, os_gen;
+unsigned os_probe_q; unsigned char os_probe_ref; int os_probe_ref_set;
 #ifdef VF_CBMC
-unsigned char os_arena[OS_MAXOBJ + OS_NGEN * OS_SHIFT];
+unsigned char os_arena[OS_NGEN * OS_SHIFT];
+static unsigned os_next_slot;
+static int os_live[OS_NGEN];
+static unsigned os_len[OS_NGEN];
+/* contents: one probe byte per slot, the byte at logical offset os_probe_q
+ * (a fresh mapping reads as zero, mremap carries it over, the encoder stub and
+ * memcpy update it).  os_probe_q is nondeterministic, so it stands for every offset. */
+static unsigned char os_probe_val[OS_NGEN];
 #endif
 
 
@@ -36,6 +48,10 @@ void os_schedule(int in_base) {
   unsigned long mv = IN(in_base + OS_NKIND), sw = IN(in_base + OS_NKIND + 1);
   ASSUME(mv < 2 && sw < 64);
   os_mremap_moves = (unsigned)mv; os_short_write = (unsigned)sw;
+#ifdef VF_CBMC
+  os_probe_q = nondet_uint();
+  __CPROVER_assume(os_probe_q < OS_SHIFT);
+#endif
 }
 
 static int os_fails(int kind) {
@@ -64,9 +80,11 @@ void *vf_mmap(void *addr, size_t len, int prot, int flags, int fd, off_t off) {
      * address OS_SHIFT bytes further on.  Contents are not simulated (mremap
      * preserves them by contract); what the queries decide is that the
      * library asks for the right sizes and uses the address it was given. */
-    __CPROVER_assert(len <= OS_MAXOBJ, "model bound: anonymous mapping fits the model object");
-    os_last_prot = prot; os_anon_len = (unsigned)len; os_gen = 0;
-    return os_arena;
+    __CPROVER_assert(len <= OS_MAXOBJ && len <= OS_SHIFT, "model bound: anonymous mapping fits the model object");
+    __CPROVER_assert(os_next_slot < OS_NGEN, "model bound: number of code mappings");
+    os_last_prot = prot; os_anon_len = (unsigned)len; os_gen = os_next_slot++;
+    os_live[os_gen] = 1; os_len[os_gen] = (unsigned)len; os_probe_val[os_gen] = 0;
+    return os_code_base();
   }
   if (flags & MAP_ANONYMOUS) {
     __CPROVER_assert(len <= OS_MAXOBJ, "model bound: anonymous mapping fits the model object");
@@ -105,23 +123,80 @@ void *vf_mmap(void *addr, size_t len, int prot, int flags, int fd, off_t off) {
   return p;
 }
 
+/* slot of an address inside the arena, -1 if it is not the base of a live mapping */
+static int os_slot_of_base(const void *p) {
+  if (!__CPROVER_same_object(p, os_arena)) return -1;
+  unsigned long o = __CPROVER_POINTER_OFFSET(p);
+  if (o % OS_SHIFT != 0 || o / OS_SHIFT >= OS_NGEN) return -1;
+  return os_live[o / OS_SHIFT] ? (int)(o / OS_SHIFT) : -1;
+}
+
 void *vf_mremap(void *old, size_t oldlen, size_t newlen, int flags, ...) {
   (void)flags;
   if (os_fails(OS_MREMAP)) return MAP_FAILED;
-  __CPROVER_assert(newlen <= OS_MAXOBJ, "model bound: grown mapping fits the model object");
-  __CPROVER_assert((unsigned char *)old == os_code_base(), "VF mremap is given the current address of the mapping");
-  __CPROVER_assert(oldlen == os_anon_len, "VF mremap is given the current size of the mapping (contract of mremap: old_size)");
-  os_anon_len = (unsigned)newlen;
-  if (os_mremap_moves && os_gen < OS_NGEN - 1) os_gen++;
+  __CPROVER_assert(newlen <= OS_MAXOBJ && newlen <= OS_SHIFT, "model bound: grown mapping fits the model object");
+  int g = os_slot_of_base(old);
+  __CPROVER_assert(g >= 0, "VF mremap is given the current address of the mapping");
+  if (g < 0) return MAP_FAILED;
+  __CPROVER_assert(oldlen == os_len[g], "VF mremap is given the current size of the mapping (contract of mremap: old_size)");
+  if (os_mremap_moves && os_next_slot < OS_NGEN) {
+    int n = (int)os_next_slot++;
+    os_live[n] = 1; os_probe_val[n] = os_probe_q < oldlen ? os_probe_val[g] : 0;
+    os_live[g] = 0;
+    g = n;
+  } else if (os_probe_q >= oldlen) os_probe_val[g] = 0;
+  os_len[g] = (unsigned)newlen;
+  os_gen = (unsigned)g; os_anon_len = (unsigned)newlen;
   return os_code_base();
 }
 
 unsigned char *os_code_base(void) { return os_arena + os_gen * OS_SHIFT; }
 
+/* the encoder stub writes len bytes at dest: must lie inside a live code
+ * mapping; *off = offset inside it, *slot = which mapping.  (The written byte
+ * is handed over by value in os_probe_store: reading it here through a pointer
+ * into the abstract program would hit the cbmc defect of c/README-cbmc-bug.txt.) */
+int os_code_write(unsigned char *dest, unsigned len, long *off, int *slot) {
+  if (!__CPROVER_same_object(dest, os_arena)) return 0;
+  unsigned long o = __CPROVER_POINTER_OFFSET(dest);
+  unsigned g = (unsigned)(o / OS_SHIFT), w = (unsigned)(o % OS_SHIFT);
+  if (g >= OS_NGEN || !os_live[g] || w + len > os_len[g]) return 0;
+  *off = (long)w; *slot = (int)g;
+  return 1;
+}
+void os_probe_store(int slot, unsigned char v) { os_probe_val[slot] = v; }
+
+/* byte at logical offset os_probe_q of the mapping at base */
+int os_probe_read(const unsigned char *base, unsigned char *out) {
+  int g = os_slot_of_base(base);
+  if (g < 0 || os_probe_q >= os_len[g]) return 0;
+  *out = os_probe_val[g];
+  return 1;
+}
+
+void *vf_memcpy(void *dst, const void *src, size_t n) {
+  if (__CPROVER_same_object(dst, os_arena)) {
+    /* a copy between code mappings (only whole-prefix copies base -> base are
+     * modelled exactly; anything else makes the probe byte unknown) */
+    int gd = os_slot_of_base(dst), gs = os_slot_of_base(src);
+    __CPROVER_assert(gd >= 0 && n <= os_len[gd], "VF memcpy into a code mapping stays inside it");
+    if (gd >= 0 && os_probe_q < n) {
+      if (gs >= 0 && n <= os_len[gs]) os_probe_val[gd] = os_probe_val[gs];
+      else os_probe_val[gd] = nondet_uchar();
+    }
+    return dst;
+  }
+  unsigned char *d = dst; const unsigned char *s = src;
+  for (size_t i = 0; i < n; i++) d[i] = s[i];
+  return dst;
+}
+
 int vf_munmap(void *p, size_t len) {
   if (os_fails(OS_MUNMAP)) return -1;
   if (__CPROVER_same_object(p, os_arena)) {
-    __CPROVER_assert((unsigned char *)p == os_code_base() && len == os_anon_len, "VF munmap is given the current address and size of the code mapping");
+    int g = os_slot_of_base(p);
+    __CPROVER_assert(g >= 0 && len == os_len[g], "VF munmap is given the current address and size of the code mapping");
+    if (g >= 0) os_live[g] = 0;
     return 0;
   }
   if (p == (void *)os_map_base) os_unmapped_ok = (len != 0);
@@ -149,13 +224,13 @@ FILE *vf_fopen(const char *path, const char *mode) {
   if (os_fails(OS_FOPEN)) return NULL;
   os_fake_file = malloc(sizeof(int));
   __CPROVER_assume(os_fake_file != NULL);
-  os_fopen_live = 1; os_written_n = 0;
+  os_fopen_live = 1; os_written_n = 0; os_stream_err = 0;
   return os_fake_file;
 }
 size_t vf_fwrite(const void *ptr, size_t size, size_t n, FILE *f) {
   (void)f;
   size_t want = size * n, got = want;
-  if (os_fails(OS_FWRITE)) { got = os_short_write < want ? os_short_write : (want ? want - 1 : 0); }
+  if (os_fails(OS_FWRITE)) { got = os_short_write < want ? os_short_write : (want ? want - 1 : 0); os_stream_err = 1; }
   const unsigned char *s = ptr;
   for (unsigned i = 0; i < 64; i++)
     if (i < got) os_written[os_written_n + i < 64 ? os_written_n + i : 63] = s[i];
@@ -169,7 +244,11 @@ int vf_fclose(FILE *f) {
   os_fclose_ok = 1;
   return 0;
 }
-#else
+#endif
+/* the stream's error indicator: set by a failed write (both builds) */
+int vf_ferror(FILE *f) { (void)f; return os_stream_err; }
+int vf_fflush(FILE *f) { (void)f; return os_stream_err ? EOF : 0; }
+#ifndef VF_CBMC
 /* ------------------------------------------------- replay: real calls + injected faults */
 void *vf_malloc(size_t n) { if (os_fails(OS_MALLOC)) return NULL; return (malloc)(n); }
 void vf_free(void *p) { (free)(p); }
@@ -202,6 +281,7 @@ int vf_munmap(void *p, size_t len) {
   if (p == (void *)os_map_base) os_unmapped_ok = 1;
   return (munmap)(p, len);
 }
+void *vf_memcpy(void *dst, const void *src, size_t n) { return (memcpy)(dst, src, n); }
 int vf_open(const char *path, int flags, ...) {
   if (os_fails(OS_OPEN)) { errno = EACCES; return -1; }
   return (open)(path, flags);
@@ -210,12 +290,12 @@ int vf_fstat(int fd, struct stat *st) { if (os_fails(OS_FSTAT)) { errno = EIO; r
 int vf_close(int fd) { int r = (close)(fd); if (os_fails(OS_CLOSE)) return -1; return r; }
 FILE *vf_fopen(const char *path, const char *mode) {
   if (os_fails(OS_FOPEN)) { errno = EACCES; return NULL; }
-  os_fopen_live = 1; os_written_n = 0;
+  os_fopen_live = 1; os_written_n = 0; os_stream_err = 0;
   return (fopen)(path, mode);
 }
 size_t vf_fwrite(const void *ptr, size_t size, size_t n, FILE *f) {
   size_t want = size * n, got = want;
-  if (os_fails(OS_FWRITE)) got = os_short_write < want ? os_short_write : (want ? want - 1 : 0);
+  if (os_fails(OS_FWRITE)) { got = os_short_write < want ? os_short_write : (want ? want - 1 : 0); os_stream_err = 1; }
   size_t r = (fwrite)(ptr, 1, got, f);
   for (unsigned i = 0; i < r && os_written_n + i < 64; i++) os_written[os_written_n + i] = ((const unsigned char *)ptr)[i];
   os_written_n += (unsigned)r;
